@@ -4,6 +4,7 @@ package redis
 
 import (
 	"fmt"
+	"strconv"
 	"testing"
 
 	"github.com/mgtv-tech/redis-GunYu/pkg/digest"
@@ -55,8 +56,8 @@ func vfC11Key(r *vfutil.Rand) []byte {
 	case 1: // long
 		return r.Bytes(r.Range(100, 300))
 	case 2: // tiny alphabet, exhaustive-ish
-		alpha := []byte{'{', '}', 'a', 0xff}
-		n := r.Intn(7)
+		alpha := []byte{'{', '}', 'a', 0xff, 0xc3, 0xa9, 0xe2}
+		n := r.Intn(9)
 		b := make([]byte, n)
 		for i := range b {
 			b[i] = vfutil.Pick(r, alpha)
@@ -101,9 +102,10 @@ func TestVerifC11(t *testing.T) {
 		a := KeyToSlot(string(k))
 		b := cluster.VerifHash(string(k))
 		g, _ := cluster.GetSlot(k)
+		gs, errS := cluster.GetSlot(string(k))
 		want := vfHashSlot(k)
-		if g != b {
-			s.Violate("GetSlot!=hash", "GetSlot([]byte) disagrees with hash", map[string]interface{}{"key_hex": vfutil.Hex(k)})
+		if g != b || gs != b || errS != nil {
+			s.Violate("GetSlot!=hash", "GetSlot([]byte / string) disagrees with hash", map[string]interface{}{"key_hex": vfutil.Hex(k)})
 		}
 		s.Op("slot "+vfutil.Hex(k), fmt.Sprintf("%d %d %d", a, b, want))
 		// coverage classes
@@ -135,6 +137,59 @@ func TestVerifC11(t *testing.T) {
 	for _, l := range vfutil.Corpus("C11") {
 		one(vfutil.UnHex(l), "corpus")
 	}
+	// long keys: tag at the start / in the middle / at the end / absent / unclosed
+	for _, n := range []int{4095, 4096, 4097, 65535, 65537, 1 << 20} {
+		for v := 0; v < 5; v++ {
+			k := r.Bytes(n)
+			for i := range k {
+				if k[i] == '{' || k[i] == '}' {
+					k[i] = 'x'
+				}
+			}
+			switch v {
+			case 0:
+				k[0], k[9] = '{', '}'
+			case 1:
+				k[n/2], k[n-2] = '{', '}'
+			case 2:
+				k[n-3], k[n-1] = '{', '}'
+			case 3:
+			case 4:
+				k[1] = '{'
+			}
+			one(k, "long")
+			if v == 3 {
+				got := digest.Crc16(string(k))
+				s.Op("crc16 "+vfutil.Hex(k), fmt.Sprintf("%d %d", got, vfCrc16(k)))
+				if got != vfCrc16(k) {
+					s.Violate("Crc16", "table CRC16 differs from bitwise XMODEM on a long input", map[string]interface{}{"input_len": n, "got": got, "want": vfCrc16(k)})
+				}
+			}
+		}
+	}
+	// integer keys: GetSlot hashes their decimal text (what the wire encoder sends)
+	for i := 0; i < vfutil.Scale(300, 5000); i++ {
+		n := int64(r.U64())
+		switch r.Intn(4) {
+		case 0:
+			n %= 1000
+		case 1:
+			n %= 1 << 31
+		}
+		txt := strconv.FormatInt(n, 10)
+		want := vfHashSlot([]byte(txt))
+		a1, e1 := cluster.GetSlot(n)
+		a2, e2 := cluster.GetSlot(int(n))
+		a3, e3 := cluster.GetSlot(uint64(n))
+		w3 := vfHashSlot([]byte(strconv.FormatUint(uint64(n), 10)))
+		a4, e4 := cluster.GetSlot(int32(n))
+		w4 := vfHashSlot([]byte(strconv.FormatInt(int64(int32(n)), 10)))
+		s.Count("getslot_int")
+		if e1 != nil || e2 != nil || e3 != nil || e4 != nil || a1 != want || a2 != want || a3 != w3 || a4 != w4 {
+			s.Violate("GetSlot-type", fmt.Sprintf("GetSlot of integer key %d: int64=%d int=%d uint64=%d int32=%d, HASH_SLOT(text)=%d/%d/%d", n, a1, a2, a3, a4, want, w3, w4),
+				map[string]interface{}{"n": n})
+		}
+	}
 	// raw CRC on random strings (table vs bitwise)
 	for i := 0; i < vfutil.Scale(2000, 100000); i++ {
 		b := r.Bytes(r.Intn(64))
@@ -145,8 +200,9 @@ func TestVerifC11(t *testing.T) {
 		}
 	}
 	// exhaustive small keys over the brace alphabet
-	alpha := []byte{'{', '}', 'a', 0xff}
-	maxLen := vfutil.Scale(5, 8)
+	// incl. a UTF-8 lead byte and a continuation byte: "lead, brace" and "brace inside a would-be rune"
+	alpha := []byte{'{', '}', 'a', 0xff, 0xc3, 0xa9}
+	maxLen := vfutil.Scale(5, 7)
 	var rec func(prefix []byte)
 	rec = func(prefix []byte) {
 		one(prefix, "exhaustive")
